@@ -127,11 +127,21 @@ struct Handle {
 };
 static std::vector<Handle>* g_handles                                   = new std::vector<Handle>(); // leaked on purpose
 
+static int g_outfd = 1;
+// every line goes to the parent at once, so that the log of a run that aborts is not lost
 static void emit(const std::string& s)
 {
   char buf[64];
   snprintf(buf, sizeof buf, "%a ", sg4::Engine::get_clock());
-  g_log.push_back(std::string(buf) + s);
+  std::string l = (g_log.empty() ? "" : " | ") + std::string(buf) + s;
+  g_log.push_back(l);
+  size_t off = 0;
+  while (off < l.size()) {
+    ssize_t w = write(g_outfd, l.data() + off, l.size() - off);
+    if (w <= 0)
+      break;
+    off += w;
+  }
 }
 static std::map<long, int>* g_pid2idx = new std::map<long, int>();
 static std::vector<int> g_cur_op; // per actor: op issued and not returned (-1: none)
@@ -375,8 +385,15 @@ static int run_case(const Case& c, std::string& out)
   for (int i = 0; i < 8; i++)
     g_mbox.push_back(sg4::Mailbox::by_name("mb" + std::to_string(i)));
 
-  sg4::Host::on_onoff_cb([](sg4::Host const& h) { logline(std::string("sig ") + (h.is_on() ? "on " : "off ") + h.get_cname()); });
-  sg4::Link::on_onoff_cb([](sg4::Link const& l) { logline(std::string("sig ") + (l.is_on() ? "on " : "off ") + l.get_cname()); });
+  // the signal fires after the kills: print the cause first, then what the scan sees
+  sg4::Host::on_onoff_cb([](sg4::Host const& h) {
+    emit(std::string("sig ") + (h.is_on() ? "on " : "off ") + h.get_cname());
+    scan();
+  });
+  sg4::Link::on_onoff_cb([](sg4::Link const& l) {
+    emit(std::string("sig ") + (l.is_on() ? "on " : "off ") + l.get_cname());
+    scan();
+  });
   sg4::Engine::on_time_advance_cb([](double) { register_waiting(); });
   sg4::Engine::on_deadlock_cb([&c]() {
     std::string s = "deadlock";
@@ -401,8 +418,7 @@ static int run_case(const Case& c, std::string& out)
   }
   e.run();
   logline("end");
-  for (size_t i = 0; i < g_log.size(); i++)
-    out += (i ? " | " : "") + g_log[i];
+  (void)out;
   return 0;
 }
 
@@ -444,6 +460,7 @@ int main(int argc, char** argv)
         close(fds[0]);
         dup2(efd, 2);
         alarm(20);
+        g_outfd = fds[1];
         Case c;
         std::string out;
         if (not parse_case(lines[i], c))
@@ -474,7 +491,7 @@ int main(int argc, char** argv)
       waitpid(ch[k].pid, &st, 0);
       if (WIFSIGNALED(st)) {
         if (WTERMSIG(st) == SIGALRM)
-          out = "HANG";
+          out += std::string(out.empty() ? "" : " | ") + "HANG";
         else {
           std::string err;
           lseek(ch[k].errfd, 0, SEEK_SET);
@@ -485,7 +502,7 @@ int main(int argc, char** argv)
             if (l.find("ssertion") != std::string::npos || l.find("xbt_die") != std::string::npos ||
                 l.find("CRITICAL") != std::string::npos || l.find("critical") != std::string::npos)
               msg = sanitize(l);
-          out = "CRASH " + std::to_string(WTERMSIG(st)) + " " + msg;
+          out += std::string(out.empty() ? "" : " | ") + "CRASH " + std::to_string(WTERMSIG(st)) + " " + msg;
         }
       } else if (not out.empty() && out.back() == '\n')
         out.pop_back();
